@@ -275,8 +275,9 @@ def menu(fmt):
         add("O32.occ0.shape", f"occupancy.shape={sh[0]}", lambda s, sh=sh: find(s, "obstacles", 32)["prediction"]["occ"][0].__setitem__("shape", copy.deepcopy(sh)))
         add("O33.occ1.shape", f"phantom.occupancy.shape={sh[0]}", lambda s, sh=sh: find(s, "obstacles", 33)["prediction"]["occ"][1].__setitem__("shape", copy.deepcopy(sh)))
         add("O34.shape", f"environment.shape={sh[0]}", lambda s, sh=sh: find(s, "obstacles", 34).__setitem__("shape", copy.deepcopy(sh)))
-        if sh[0] != "group" or True:
-            add("PP.goal0.position", f"goal.position={sh[0]}", lambda s, sh=sh: s["pps"][0]["goal"]["states"][0]["attrs"].__setitem__("position", copy.deepcopy(sh)))
+        # XSD positionInterval: several shapes of ONE kind; protobuf: any shape group
+        gsh = sh if (sh[0] != "group" or fmt == "pb") else ["group", [["rect", 1.0, 1.0, 26.0, 2.0, 0.0], ["rect", 2.0, 1.5, 29.0, 3.0, 0.25]]]
+        add("PP.goal0.position", f"goal.position={sh[0]}", lambda s, gsh=gsh: s["pps"][0]["goal"]["states"][0]["attrs"].__setitem__("position", copy.deepcopy(gsh)))
     regions = [["rect", 2.0, 1.0, 12.5, 1.75, 0.125], ["circle", 0.75, 12.5, 1.75], ["poly", [[11.5, 1.0], [13.5, 1.0], [13.0, 2.5]]]]
     for i, rg in enumerate(regions):
         add("O31.init.position", f"dynamic.initial_state.position={rg[0]}-region", lambda s, rg=rg: find(s, "obstacles", 31)["initial_state"]["attrs"].__setitem__("position", copy.deepcopy(rg)))
